@@ -1024,6 +1024,8 @@ def classBody (env : Env) (fuel : Nat) (c : Class) (indent : String) : G String 
     let ctorTypeVars := match c.ctor with
       | some ctor => ctor.typeVars
       | none => []
+    let outerGenerics := (← get).classGenerics
+    modify fun s => { s with classGenerics := [] }
     let varianceInfo ← (if !c.typeParams.isEmpty || !ctorTypeVars.isEmpty then do
         let items ← typeParamStrings env c.typeParams
         let generics := ctorTypeVars.foldl (fun acc tv =>
@@ -1038,7 +1040,7 @@ def classBody (env : Env) (fuel : Nat) (c : Class) (indent : String) : G String 
     let (attrText, attrNames) ← createClassAttributeString env c.attributes inner
     let innerText ← innerClassesG (fun ic => createClassString env fuel ic inner true) (c.classes.filter (·.isPublic))
     let (methodText, methodNames) ← createClassMethodString env c.methods inner
-    let alreadyDefined := unionSet attrNames methodNames
+    let alreadyDefined := unionSet (unionSet attrNames methodNames) ((c.classes.filter (·.isPublic)).map (·.name))
     let (superInfo, superMethodsText, nNames) ← (if !c.superclasses.isEmpty && !c.isAbstract then do
         let (names, text) ← superclassesG env
           (fun sc => createInternalClassString env fuel sc inner alreadyDefined) c.superclasses
@@ -1046,6 +1048,7 @@ def classBody (env : Env) (fuel : Nat) (c : Class) (indent : String) : G String 
       else pure ("", "", 0) : G (String × String × Nat))
     if nNames > 1 then addTodo "multiple_inheritance"
     let classInheritanceTodo ← createTodoMsg indent
+    modify fun s => { s with classGenerics := outerGenerics }
     let signature := pythonNameInfo ++ indent ++ classSignatureTodo ++ classInheritanceTodo ++ "class "
       ++ escapeKeyword camel ++ varianceInfo ++ constructorInfo ++ superInfo
     let classText := attrText ++ innerText ++ superMethodsText ++ methodText
@@ -1074,6 +1077,8 @@ theorem classBody_flushed (env : Env) (fuel : Nat) (c : Class) (indent : String)
   unfold classBody
   simp only [wp_bind, wp_logEmit]
   refine wp_conseq (wp_true _ _) ?_; intro ci s1 _
+  refine wp_conseq (wp_true _ _) ?_; intro og s1a _
+  refine wp_conseq (wp_true _ _) ?_; intro _ s1b _
   refine wp_conseq (wp_true _ _) ?_; intro vi s2 _
   refine wp_conseq (wp_true _ _) ?_; intro t1 s3 _
   refine wp_conseq (wp_true _ _) ?_; intro ⟨attrText, attrNames⟩ s4 _
@@ -1082,7 +1087,7 @@ theorem classBody_flushed (env : Env) (fuel : Nat) (c : Class) (indent : String)
   refine wp_conseq (wp_true _ _) ?_; intro ⟨superInfo, superMethodsText, nNames⟩ s7 _
   simp only [wp_condTodo, wp_bind]
   refine wp_conseq (createTodoMsg_wp indent _) ?_; intro t2 s8 ⟨_, h8⟩
-  simp only [wp_logEmit, wp_ite, wp_pure, h8]
+  simp only [wp_modify, wp_logEmit, wp_ite, wp_pure, h8]
   simp
 
 theorem createClassString_flushed (env : Env) (fuel : Nat) (c : Class) (indent : String) (inRe : Bool) (st : St) :
@@ -2122,12 +2127,16 @@ theorem classBody_markers (env : Env) (fuel : Nat) (c : Class) (indent : String)
         simp only [wp_pure]
         exact ⟨_, (Grows.refl s0).mono (by simp [ctorKeys, ha, hctor]) id⟩
   intro ci s1 ⟨b1, g1⟩
+  -- the generics of the surrounding class are put aside
+  rw [wp_get, wp_modify]
+  generalize hs1 : ({ s1 with classGenerics := [] } : St) = s1'
+  have ht1 : s1'.todos = s1.todos := by rw [← hs1]
   -- type parameters
-  refine wp_conseq (Q := fun _ s2 => ∃ b s2', Grows (genericKeys c) b s1 s2' ∧ s2.todos = s2'.todos) ?_ ?_
+  refine wp_conseq (Q := fun _ s2 => ∃ b s2', Grows (genericKeys c) b s1' s2' ∧ s2.todos = s2'.todos) ?_ ?_
   · rw [wp_ite]
     refine ⟨fun hc => ?_, fun hc => ?_⟩
     · rw [wp_bind]
-      refine wp_conseq (typeParamStrings_grows env c.typeParams s1) ?_; intro items s2 g2
+      refine wp_conseq (typeParamStrings_grows env c.typeParams s1') ?_; intro items s2 g2
       simp only [wp_bind, wp_modify, wp_pure]
       have hgk : genericKeys c = c.typeParams.flatMap typeParamKeys := by
         unfold genericKeys; exact if_pos hc
@@ -2135,11 +2144,9 @@ theorem classBody_markers (env : Env) (fuel : Nat) (c : Class) (indent : String)
     · rw [wp_pure]
       have hgk : genericKeys c = [] := by
         unfold genericKeys; exact if_neg hc
-      exact ⟨_, s1, (Grows.refl s1).mono (by simp [hgk]) id, rfl⟩
-  intro vi s2 ⟨b2, s2', g2, hs2⟩
-  have g := g1.trans g2
+      exact ⟨_, s1', (Grows.refl s1').mono (by simp [hgk]) id, rfl⟩
   -- first marker block
-  intro todo1 s3 hrun1
+  intro vi s2 ⟨b2, s2', g2, hs2⟩ todo1 s3 hrun1
   obtain ⟨_, heq1⟩ := (createTodoMsg_ok indent s2 (todo1, s3)).1 hrun1
   cases heq1
   refine wp_conseq (createClassAttributeString_keeps_mk env _ _ _ rfl) ?_; intro ⟨attrText, attrNames⟩ s4 h4
@@ -2173,12 +2180,12 @@ theorem classBody_markers (env : Env) (fuel : Nat) (c : Class) (indent : String)
     rw [← hn]
     split <;> simp [h7, insertSet]
   rw [htodo2]
-  simp only [wp_logEmit, wp_ite, wp_pure]
+  simp only [wp_modify, wp_logEmit, wp_ite, wp_pure]
   have hkeys : s2.todos.Nodup ∧ ∀ k, k ≠ "internal class as type" →
       (k ∈ s2.todos ↔ k ∈ ctorKeys c ++ genericKeys c) := by
     rw [hs2]
-    refine ⟨g.nodup (by simp [h0']), fun k hk => ?_⟩
-    rw [g.mem k hk]
+    refine ⟨g2.nodup (by rw [ht1]; exact g1.nodup (by simp [h0'])), fun k hk => ?_⟩
+    rw [g2.mem k hk, ht1, g1.mem k hk]
     simp [h0']
   refine ⟨fun _ => ⟨trivial, s2.todos,
       escapeKeyword (convertName c.name env.safe true) ++ (vi ++ (ci ++ superInfo)),
